@@ -22,9 +22,9 @@ func init() {
 		Rule: "one run = one generated (program, Template entry point, layout mode); the run enumerates writer fault offset x form (every byte offset in thorough; first/last/Write-call boundaries±1/sampled middle in quick), context cancellation before the call and at every poll the fault-free run performed, source-reader failures for RenderReader; a case is non-trivial when its fault actually fired; distinct = distinct (fault kind, entry, layout mode, form, offset class | poll index)",
 		Runs: func(tier string) int {
 			if tier == "thorough" {
-				return 20000
+				return 150000
 			}
-			return 600
+			return 6000
 		},
 		Gen: genC12, Exec: execC12,
 		Assumes: []string{"the destination writer obeys the io.Writer contract (never n<len with nil error)", "mid-render cancellation is held only to all-or-nothing, not to 'must fail'", "vuego runs as an instrumented copy whose pass-through behaviour is checked against the repository's own tests"},
@@ -34,9 +34,9 @@ func init() {
 		Rule: "one run = one sequential history (2-12 operations quick, 2-15 thorough, with repetitions, succeeding and failing programs, every entry point, map/struct/pointer data) on one long-lived engine under a seeded adversarial simulator configuration (map order desc/perm, pool lifo/fifo/random with poison and drops, frozen/coarse/jumping clock, path cache empty/nearly full/saturated); each operation is compared byte-for-byte with the same operation alone on a fresh engine under the reference configuration; evaluations = operations executed (history + references); distinct = distinct (outcome kind, entry point, data shape) and simulator configurations reached",
 		Runs: func(tier string) int {
 			if tier == "thorough" {
-				return 60000
+				return 3000000
 			}
-			return 2500
+			return 40000
 		},
 		Gen: genC10, Exec: execC10,
 		Assumes: []string{"reference = the same code on a fresh engine with ascending map order, no recycling and a ticking clock", "simgen's rewrite preserves vuego's behaviour (validated by the repository's tests in pass-through mode)"},
@@ -46,9 +46,9 @@ func init() {
 		Rule: "one run = a history of 2-6 renders over 1-2 generated pages holding 1-4 uniquely marked v-once placements each (top level, loop body, on the loop element, component included 1-3 times, two components, side by side, unreachable branch, component inside a loop, component reached directly and through a wrapper, nested loops, shorthand tag, layout, component shared by page and layout), every entry point, frozen/coarse/jumping/ticking simulated clock, recycled pools; oracle = occurrences of each marker vs a model of the statement computed by the generator; distinct = distinct (entry class, placement, expected count)",
 		Runs: func(tier string) int {
 			if tier == "thorough" {
-				return 60000
+				return 2000000
 			}
-			return 3000
+			return 30000
 		},
 		Gen: genC16, Exec: execC16,
 		Assumes: []string{"expected counts come from the generator's knowledge of loop lengths and conditions, not from vuego", "v-once on an element that also carries v-for counts loop iterations as instantiations of the same element"},
@@ -58,9 +58,9 @@ func init() {
 		Rule: "one run = one seeded operation stream (10-60 operations quick, 10-160 thorough) over 1-4 stacks plus their copies, root data map / struct / pointer / nil / struct with its JSON-tag map, a 10-name universe including a Go field name and an unexported field; operations Push(nil), Push(map), Pop, Set, Lookup, Resolve (map/slice paths, fresh paths), EnvMap, Copy, ForEach with nested Push/Set/Pop, GetString, GetInt, and the caller re-using a map it pushed earlier; scope maps travel between stacks through the simulated pool (lifo/fifo/random, drops, poison on Put), path cache empty / nearly full / saturated; after every operation every stack is compared with a reference model (slice of plain maps + root value) for every name, and EnvMap with Lookup; distinct = distinct (operation kinds, root shapes, pool configurations, recycled-map-reused probe)",
 		Runs: func(tier string) int {
 			if tier == "thorough" {
-				return 100000
+				return 1200000
 			}
-			return 4000
+			return 20000
 		},
 		Gen: genC17, Exec: execC17,
 		Assumes: []string{"only the scope-stack half of C17 is claimed; path resolution through structs/arrays/pointers (a pure function) is not", "values agree when equal up to representation (a struct and its JSON-tag map)"},
@@ -70,9 +70,9 @@ func init() {
 		Rule: "one run = one history of 4-12 steps from {edit page / component / layout / side file to another immutable version (content edit, front-matter edit, invalid, deleted, restored), clock step, render via Vue.Render / Load.Render / RenderFile / RenderFragment / RenderString} on one long-lived engine over the simulated fs; mtimes from a 1ns/1s/2s universe with equal, backward and zero values; 25% of runs add fs faults (eio, enoent, perm, short read, read error): the faulted render is not compared, every later one is; after every render the result is compared with a new engine on the current files (either version accepted only when the cache cannot tell them apart by mtime); distinct = distinct (edit kind x file role x mtime relation) and render entry points",
 		Runs: func(tier string) int {
 			if tier == "thorough" {
-				return 60000
+				return 2000000
 			}
-			return 3000
+			return 30000
 		},
 		Gen: genC15, Exec: execC15,
 		Assumes: []string{"what an engine reads once at construction (theme.yml, data/*.yml, the set of component names) is held fixed within a history", "equal-mtime edits as the cache sees them and zero mtimes are excluded from the freshness claim, as the cache documents", "a render during which an injected fs fault fired is not itself compared (the statement is silent about it); the renders after it are"},
@@ -82,9 +82,9 @@ func init() {
 		Rule: "run index selects the family: (a) include digraphs over {page, CompA, CompB} enumerated (512 graphs x 4 edge styles: plain / data-bounded v-if / inside v-for / through a slot) then 4-node graphs with mixed styles incl. shorthand tags, every entry point, map/struct/pointer data, recursion depth 0-4; (b) layout graphs: self reference, 2- and 3-cycles, missing target, chains of 5..130, page as its own layout, self-referencing base layout; (c) slot content reused at several <slot> positions and inside loops; (d) hostile typed data in directive positions; (e) runs of every other workload family (C10 histories and C16 histories with added fs/writer/context/reader faults, C12 fault grids, C15 edit histories, C17 stack histories) on which only the crash monitors are evaluated. Oracle: the worker survives, no panic reaches the caller, the call returns within the kernel step budget, an unconditional include/layout cycle returns an error. distinct = distinct (family, entry class, outcome kind)",
 		Runs: func(tier string) int {
 			if tier == "thorough" {
-				return 60000
+				return 2000000
 			}
-			return 6000
+			return 30000
 		},
 		Gen: genC11, Exec: execC11,
 		Assumes: []string{"only crash, panic, non-return and unreported unconditional cycles are violations; data-bounded recursion may return output or an error", "robustness against arbitrary byte strings as templates and arbitrary typed data is input fuzzing and is not claimed", "non-return is decided by a kernel step budget three orders above the largest legitimate run, not by wall-clock"},
@@ -94,9 +94,9 @@ func init() {
 		Rule: "one run = 2-4 tasks (thorough: up to 12) x 1-2 render operations each on ONE shared engine and base template (Vue.Render, RenderFragment, Load.Render, RenderFile, RenderString, and RenderFile/RenderString straight on the base template), cold or warmed caches, same page or different pages sharing components and layouts, per-task data or one shared read-only data value, unseen expressions and paths, files edited underneath at kernel steps in 35% of runs; the kernel's seeded scheduler (run-to-completion order, PCT with 1-5 change points, uniform random at 0.4% / 3% / 30% of yield points) decides every interleaving over the yield sites simgen inserted; workers are -race builds with an invisible baton and std sync.Pool neutralised. Oracles: zero race reports, each task's (bytes, error) equals the same operation alone on a fresh engine over the file versions it observed, no foreign tag, no poison, no panic/deadlock, engine not corrupted afterwards. distinct = distinct interleavings (hash of the task-switch sequence) plus configuration and reach probes",
 		Runs: func(tier string) int {
 			if tier == "thorough" {
-				return 30000
+				return 400000
 			}
-			return 1200
+			return 6000
 		},
 		Gen: genC09, Exec: execC09,
 		Assumes: []string{"the race detector reports only races among executed accesses not ordered by the program's own synchronisation; a race hidden by an incidental program-owned happens-before edge in the sampled schedules is missed", "a render that observed two versions of one file (an edit landed mid-call) is not compared byte-for-byte", "interleavings inside dependencies are not explored (their memory accesses are still seen by the detector)"},
